@@ -11,7 +11,7 @@ and the loop's functor queue that decide what a client's user can observe.
 * Everything the environment decides is an input: the result of `::connect`, `SO_ERROR`,
   self-connect, what the poller reports, `readv` results on the connection, the clock.
 * Sockets are numbered in creation order; `sockSt` is the ghost status of each.
-* Ghost fields (`nretry`, `ups`, `stopReq`, `trace`) record history for the theorems.
+* Ghost fields (`nretry`, `ups`, `stopReq`, `trace`) and the `Ev.ghost` marks record history for the theorems.
 -/
 namespace MuduoVerif.Client
 open MuduoVerif.Gen.Client
@@ -63,6 +63,11 @@ structure ConnRec where
   destroyed : Bool := false   -- `~TcpConnection` ran: descriptor closed
 deriving DecidableEq, Repr
 
+/-- ghost marks in the trace (never printed): the start of a connect cycle
+(`startCycleInLoop` / `restart`) and the user's `connect()`, `stop()`, `~TcpClient` calls -/
+inductive Ghost | cycle | connect | stop | destroy
+deriving DecidableEq, Repr
+
 inductive Ev
   | sockCreated (k : Nat)
   | attempt (k : Nat) (t : Nat)            -- `::connect` called at virtual time t (µs)
@@ -74,6 +79,7 @@ inductive Ev
   | retryScheduled (i : Nat) (ms : Nat) (t : Nat)   -- ghost: i-th retry of the cycle, delay, time of the failure
   | abort (what : String)
   | uaf (what : String)
+  | ghost (g : Ghost)
 deriving DecidableEq, Repr
 
 /-- what the poller reported, in the order of `activeChannels_` -/
@@ -211,11 +217,12 @@ def startInLoop (c : C) : C :=
 def startCycle (c : C) : C :=
   startInLoop { c with cstate := if cycleClearsState c.cstate then .kDisconnected else c.cstate,
                        delay := if cycleResetsDelay then kInitRetryDelayMs else c.delay,
-                       nretry := 0, ups := 0 }
+                       nretry := 0, ups := 0, trace := c.trace ++ [.ghost .cycle] }
 
 /-- `Connector::restart()` (checked structurally by the extractor) -/
 def restart (c : C) : C :=
-  startInLoop { c with cstate := .kDisconnected, delay := kInitRetryDelayMs, cConnect := true, nretry := 0, ups := 0 }
+  startInLoop { c with cstate := .kDisconnected, delay := kInitRetryDelayMs, cConnect := true, nretry := 0, ups := 0,
+                       trace := c.trace ++ [.ghost .cycle] }
 
 /-- `Connector::stopInLoop()` -/
 def stopInLoop (c : C) : C :=
@@ -304,7 +311,9 @@ def dispatchConn (c : C) (k rev : Nat) : C :=
   match findConn c k with
   | none => c
   | some r =>
-    if r.destroyed ∨ ¬ r.chanOn ∨ c.horizon ≤ k then c
+    -- `c.chan = some k`: the descriptor was the connector's when this iteration polled (its channel
+    -- object lives until the queued `resetChannel`), so the poller cannot have reported the connection's
+    if r.destroyed ∨ ¬ r.chanOn ∨ c.horizon ≤ k ∨ c.chan = some k then c
     else
       let c1 : C := if dispClose rev ∧ dispCloseSub false true false then handleClose c k else c
       if c1.dead then c1
@@ -389,7 +398,7 @@ def iter (c : C) (active : List Src) : C :=
 
 /-! ### the user's operations -/
 def userConnect (c : C) (w : Who) : C :=
-  let c1 : C := { c with tConnect := true, cConnect := true, stopReq := false }
+  let c1 : C := { c with tConnect := true, cConnect := true, stopReq := false, trace := c.trace ++ [.ghost .connect] }
   match startDispatch, w with
   | .run, .loop => startCycle c1
   | _, _ => enqueue c1 .startCycle
@@ -400,7 +409,8 @@ def connectorStop (c : C) (w : Who) : C :=
   | .run, .loop => stopInLoop c1
   | _, _ => enqueue c1 .stopInLoop
 
-def userStop (c : C) (w : Who) : C := connectorStop { c with tConnect := false, stopReq := true } w
+def userStop (c : C) (w : Who) : C :=
+  connectorStop { c with tConnect := false, stopReq := true, trace := c.trace ++ [.ghost .stop] } w
 
 /-- `TcpConnection::shutdown()` -/
 def connShutdown (c : C) (k : Nat) : C :=
@@ -422,7 +432,7 @@ def useCount (c : C) (k : Nat) : Nat :=
 
 /-- `TcpClient::~TcpClient()` called on thread `w` -/
 def userDestroy (c : C) (w : Who) : C :=
-  let c0 : C := { c with destroyedAt := some c.now }
+  let c0 : C := { c with destroyedAt := some c.now, trace := c.trace ++ [.ghost .destroy] }
   let c1 : C :=
     match c0.connection with
     | some k =>
